@@ -1728,6 +1728,58 @@ func leanStrList(xs []string) string {
 	return "[" + strings.Join(q, ", ") + "]"
 }
 
+// funcTextLines renders one function as text lines: its signature, then every top-level statement of its body in pieces
+// of at most 160 characters (normalised white space)
+func funcTextLines(n string, fd *ast.FuncDecl) []string {
+	if fd == nil || fd.Body == nil {
+		return []string{n + ": MISSING"}
+	}
+	out := []string{n + ": " + stmtText(fd.Type)}
+	for i, st := range fd.Body.List {
+		txt := stmtText(st)
+		for j := 0; len(txt) > 0; j++ {
+			cut := len(txt)
+			if cut > 160 {
+				cut = 160
+				for cut > 0 && !utf8.RuneStart(txt[cut]) {
+					cut--
+				}
+			}
+			out = append(out, fmt.Sprintf("%s#%d.%d: %s", n, i, j, txt[:cut]))
+			txt = txt[cut:]
+		}
+	}
+	return out
+}
+
+// the functions of package genql that each property's model mirrors and that no other regenerated fact covers line by line:
+// their whole text is a fact (Obligations/Pin*.lean hold the text the model was written after)
+var pinned = map[string][]string{
+	"C01": {"BetweenExpr", "IsExpr", "AndExpr", "OrExpr", "NotExpr", "RegexComparison", "ExecWhere"},
+	"C02": {"LiteralExpr", "CaseExpr", "ValueTupleExpr", "FuncArgReader", "BuildLiteral", "BuildColumnName"},
+	"C03": {"ExecGroupBy", "ExecHaving", "AggrFunExpr", "AggrFuncArgReader", "Query.matched", "ExecSelect", "IsSelectAllAggregate",
+		"SumFunc", "AvgFunc", "MinFunc", "MaxFunc", "CountFunc"},
+	"C04": {"ToHash", "ToCatalog", "NewJoin", "Join.HashJoinFunc", "Join.JoinFunc", "Join.JoinMatchFunc", "Join.HashJoinMatchFunc",
+		"Join.on", "Copy", "hashJoinAnalyze", "extractJoinColumns", "extractColumnsFromExpr", "BuildJoin", "ExecJoin"},
+	"C05": {"Sort", "ExecOrderBy", "BuildOrder", "BuildLimit"},
+	"C06": {"BuildUnion", "ExecDistinct"},
+	"C07": {"BuildCte", "SubqueryExpr", "ExistExpr", "WithBackwardNavigation", "ProcessAlias", "BuildFromAliasedTable"},
+	"C09": {"ReadIndex", "ReadRange", "ParseArray", "ParsePipe", "ParseSelector", "SelectDimension", "SelectMany", "Unwind",
+		"SelectObject", "ExecReader", "ReaderExecutor", "Reader", "Mix", "MixArray", "MixObject", "Distinct", "RegisterTopLevelFunction"},
+	"C17": {"DoubleQuotesToBackTick", "FindArrayIndex", "FixIdiomaticArray"},
+	"C18": {"ConcatFunc", "FirstFunc", "LastFunc", "ElementAtFunc", "ChangeTypeFunc", "UnwindFunc", "IfFunc", "DateRangeFunc",
+		"ConstantFunc", "ToLowerFunc", "ToUpperFunc", "HashFunc", "EncodeFunc", "DecodeFunc", "ArrayFunc", "Guard", "ToFloat64", "ToInt"},
+	"C19": {"RaiseWhenFunc", "RaiseFunc", "ToFloat64", "Sort"},
+}
+
+func (ex *extractor) pins(f *Facts) {
+	for prop, fns := range pinned {
+		for _, n := range fns {
+			f.Decisions["pin"+prop] = append(f.Decisions["pin"+prop], funcTextLines(n, ex.funcs[n])...)
+		}
+	}
+}
+
 func main() {
 	if len(os.Args) != 4 {
 		fmt.Fprintln(os.Stderr, "usage: gofacts <repo> <Facts.lean> <facts.json>")
@@ -1764,25 +1816,7 @@ func main() {
 					f.Decisions = map[string][]string{}
 				}
 				for _, n := range names {
-					fd := sub.funcs[n]
-					if fd.Body == nil {
-						continue
-					}
-					f.Decisions[key] = append(f.Decisions[key], n+": "+stmtText(fd.Type))
-					for i, st := range fd.Body.List {
-						txt := stmtText(st)
-						for j := 0; len(txt) > 0; j++ {
-							cut := len(txt)
-							if cut > 160 {
-								cut = 160
-								for cut > 0 && !utf8.RuneStart(txt[cut]) {
-									cut--
-								}
-							}
-							f.Decisions[key] = append(f.Decisions[key], fmt.Sprintf("%s#%d.%d: %s", n, i, j, txt[:cut]))
-							txt = txt[cut:]
-						}
-					}
+					f.Decisions[key] = append(f.Decisions[key], funcTextLines(n, sub.funcs[n])...)
 				}
 			}
 			// declared variables, whether or not a function mentions them yet
@@ -1805,6 +1839,7 @@ func main() {
 	ex.varsAccess(f)
 	ex.opTables(f)
 	ex.decisions(f)
+	ex.pins(f)
 	ex.asyncEvents(f)
 	ex.forwarders(f)
 	ex.registry(f)
@@ -1866,7 +1901,8 @@ func main() {
 		}
 		sb.WriteString("def " + k + "Events : List Ev := [" + strings.Join(evs, ", ") + "]\n")
 	}
-	for _, k := range []string{"sortCompare", "window", "join", "stages", "vars", "copyQuery", "queryFields", "dialect", "valueOf", "selectExpr", "pkgCompare", "pkgSanitizer"} {
+	for _, k := range []string{"sortCompare", "window", "join", "stages", "vars", "copyQuery", "queryFields", "dialect", "valueOf", "selectExpr", "pkgCompare", "pkgSanitizer",
+		"pinC01", "pinC02", "pinC03", "pinC04", "pinC05", "pinC06", "pinC07", "pinC09", "pinC17", "pinC18", "pinC19"} {
 		sb.WriteString("def decisions" + strings.ToUpper(k[:1]) + k[1:] + " : List String :=\n  " + leanStrList(f.Decisions[k]) + "\n\n")
 	}
 	for _, fn := range []string{"ComparisonExpr", "BinaryExpr", "UnaryExpr"} {
